@@ -16,6 +16,8 @@ def run(ctx):
         if not q:
             vlib.model_check(ctx, FAM, "FeedMC.tla", "Feed_live.cfg", timeout=3000)
             vlib.model_check(ctx, FAM, "FeedMC.tla", "Feed_full.cfg", timeout=6000, heap="24g")
+        vlib.model_check(ctx, FAM, "Scope.tla", "Scope_atomic.cfg", timeout=600, deadlock=False)
+        vlib.model_check(ctx, FAM, "Scope.tla", "Scope_split.cfg", expect_violation="ClosedMeansNoLive", timeout=600, deadlock=False)
         vlib.model_check(ctx, FAM, "TypeMux.tla", "TypeMux_cow.cfg", timeout=1500)
         vlib.model_check(ctx, FAM, "TypeMux.tla", "TypeMux_inplace.cfg", expect_violation="NoDuplicate", timeout=600)
         ctx.exhaustive = True
@@ -84,6 +86,27 @@ def run(ctx):
             ctx.traces_validated += int(m2.group(1))
         if rc2 != 0 and not race2 and v2.accepted:
             raise vlib.Infra("mux driver failed:\n" + out2[-2000:])
+    # ---- 5. SubscriptionScope: Track racing Close ----
+    strace = os.path.join(ctx.work, "scope.ndjson")
+    rc3, out3 = vlib.go_test(ctx, "aqua/event", "TestVerifScope$", env={"VERIF_SCOPE_OUT": strace, "VERIF_N": 300 if q else 5000}, race=True, timeout=3000)
+    m3 = re.search(r"VERIF-STAT scope scenarios=(\d+)", out3)
+    if "DATA RACE" in out3:
+        ctx.violation("race detector report in event.SubscriptionScope:\n" + out3[out3.find("DATA RACE") - 100:][:1500], ctx.save_replay("scope-race", [strace]))
+    elif rc3 != 0 or not m3:
+        raise vlib.Infra("scope driver failed:\n" + out3[-2000:])
+    else:
+        v3 = vlib.validate_trace(ctx, FAM, "MuxTrace.tla", "MuxTrace.cfg", strace, name="trace_scope")
+        sevs = vlib.read_ndjson(strace)
+        ctx.evaluations += len(sevs)
+        for e in sevs:
+            ctx.signatures.add(("scope", e["accepted"], e["refused"]))
+        if not v3.accepted:
+            ev = sevs[v3.line - 1] if v3.line and v3.line <= len(sevs) else {}
+            mp = os.path.join(ctx.work, "meta.json")
+            json.dump(meta, open(mp, "w"))
+            ctx.violation("MuxTrace invariant %s false at trace line %s: %s" % (v3.violated, v3.line, json.dumps(ev)), ctx.save_replay("scope-trace", [strace, mp]))
+        else:
+            ctx.traces_validated += int(m3.group(1))
     ctx.assumptions = ["TypeMux: the driver thread owns every subscriber and performs Subscribe / Unsubscribe itself, so the recorded step order is the real order; no interference between a Post's start and its first delivery",
                        "tickets are taken before a call and after its return, so recorded intervals contain the real ones",
                        "Go channel semantics as modelled in Feed.tla (TrySend succeeds iff buffer room or parked receiver)"]
